@@ -401,7 +401,9 @@ def load_baseline(root):
 def save_baseline(root, results):
     b = load_baseline(root)
     for r in results:
-        if r.get("status") == "ok" and "fingerprint" in r:
+        # a unit whose only failed obligations are recorded known findings has verified everything else: it gets its baseline too
+        only_known = bool(r.get("known_failed")) and all(x in r["known_failed"] for x in r.get("failed", []))
+        if (r.get("status") == "ok" or only_known) and "fingerprint" in r:
             b[r["module"]] = r["fingerprint"]
     with open(os.path.join(root, "contracts", "baseline.json"), "w") as f:
         json.dump(b, f, indent=1, sort_keys=True)
